@@ -171,7 +171,7 @@ func rawOpTerm(c string, pkt packet.Packet, derr error, clk int64) string {
 		if h == nil {
 			h = &packet.Header{}
 		}
-		return fmt.Sprintf("EPublish %s (Publish %s %s %s %s) %s %s %s", cqStr(c), cqStr(string(p.Topic)), cqStr(string(p.Payload)), cqZ(int64(h.Qos)), cqBool(h.Retain), cqBool(h.Dup), cqZ(int64(p.MessageId)), cqZ(clk))
+		return fmt.Sprintf("EPublish %s (Publish %s %s %s %s %s) %s %s %s", cqStr(c), cqStr(string(p.Topic)), cqStr(string(p.Payload)), cqZ(int64(h.Qos)), cqBool(h.Retain), cqBool(h.Dup), cqBool(h.Dup), cqZ(int64(p.MessageId)), cqZ(clk))
 	case *packet.Subscribe:
 		var fs []string
 		for i, f := range p.Topic {
@@ -379,7 +379,7 @@ func (e2eFamily) Exec(id int, raw json.RawMessage) Case {
 			case "pub":
 				nPub++
 				buf = encPublish(o.T, o.Pl, o.Q, o.R, o.Dup, o.Mid)
-				opT = fmt.Sprintf("EPublish %s (Publish %s %s %s %s) %s %s %s", cqStr(o.C), cqStr(o.T), cqStr(o.Pl), cqZ(int64(o.Q)), cqBool(o.R), cqBool(o.Dup), cqZ(int64(o.Mid)), cqZ(clk))
+				opT = fmt.Sprintf("EPublish %s (Publish %s %s %s %s %s) %s %s %s", cqStr(o.C), cqStr(o.T), cqStr(o.Pl), cqZ(int64(o.Q)), cqBool(o.R), cqBool(o.Dup), cqBool(o.Dup), cqZ(int64(o.Mid)), cqZ(clk))
 			case "sub":
 				buf = encSubscribe(o.Mid, o.Fs, o.Qs)
 				var fs []string
